@@ -11,6 +11,7 @@ import Gama.Proto
 import Gama.Model.NetState
 import Gama.Lemmas.NetState
 import Gama.Lemmas.NetStateSolver
+import Gama.Model.NetDenoteParse
 open Gama Gama.Proto Gama.C04.Net Gama.C04.Net.Gen
 
 /-- round 4: the machine run is `MState` (Model/NetState.lean): the cascade plus the solver object's regularisation
@@ -72,6 +73,7 @@ def step' (σ : St) (line : String) : St × String :=
   match ts with
   | [] => (σ, "")
   | ["load", _] => ({ st := some (minit ⟨0, 0, 0, 0⟩) }, "ok")
+  | ["load", _, alg] => ({ st := some (minit ⟨0, 0, 0, 0⟩ (classOf Gen.setAlg alg)) }, "ok")   -- algorithm of the file
   | _ =>
   match σ.st with
   | none => (σ, "bad-op")
@@ -81,6 +83,30 @@ def step' (σ : St) (line : String) : St × String :=
   | "fresh" :: _ => (σ, "-")
   | "chg_obs" :: _ => ({ st := some (chg s 1) }, "ok")
   | "chg_xyz" :: _ => ({ st := some (chg s 2) }, "ok")
+  | "denote" :: rest =>
+    -- round 13: EXECUTE the network-level denotation at Float.  The harness brought the observations up to date
+    -- (`if (!tst_redmer_) revision_observations()`), printed the state of the real network (`rest`) and asked `solve()`,
+    -- `residuals()`, `trans_VWV()`.  The machine does the same calls; if their symbolic answers are the specification
+    -- (artefacts of the current configuration, solver holding the current list, of the current class) the value is
+    -- `specRead W cls cfg 3` with `W` = the parsed network: `netSolve (alg of the class) np`, `projectEquations net =
+    -- .ok (np, _)` — by `net_answer_denotes` the value `denoteOut` gives the answer.  `denote !` / `denote !local`:
+    -- the solver / `vyrovnani_` threw in the implementation (input fact, as for the other members).
+    let s0 := if s.net.f1 then s else (call s "revision_observations").1
+    match rest with
+    | ["!"] => let r := call s0 "solve" true; ({ st := some r.1 }, r.2)
+    | ["!local"] => let r := call s0 "project_equations"; ({ st := some r.1 }, "throw")
+    | _ =>
+      let r1 := call s0 "solve"
+      let r2 := call r1.1 "residuals"
+      let r3 := call r2.1 "trans_VWV"
+      let bad := [r1.2, r2.2, r3.2].filter (· != "sound")
+      match parseNet rest with
+      | none => ({ st := some r3.1 }, "bad-op")
+      | some net =>
+        if !bad.isEmpty then ({ st := some r3.1 }, "den " ++ " ".intercalate bad)
+        else
+          let W : NWorld Float := fun _ => net
+          ({ st := some r3.1 }, showDen r3.1.cls (specRead W r3.1.cls r3.1.net.cfg 3))
   | ["set_algorithm", a] =>      -- round 9: the class of the new solver object, from the regenerated `Gen.setAlg`
     let s' := (mstep (minp false) s (.setAlgorithm a)).1
     ({ st := some s' }, "ok " ++ s'.cls)
